@@ -19,7 +19,7 @@ def replay_premise(case, go, m, s):
 
 def mk_compare(pid):
     def compare(case, go, m, s):
-        if case.startswith("SPUB "):
+        if case.startswith(("SPUB ", "SPUBH ")):
             # publishing through the Server's own entry point: who is sent what is a plain list computation
             return go == m, go == s
         if pid == "C04" and (case.startswith("VALID ") or case.startswith("FINITE ")):
@@ -36,7 +36,7 @@ def mk_compare(pid):
 
 
 def hist(case, go):
-    if case[0] in "VF" or case.startswith("SPUB "):
+    if case[0] in "VF" or case.startswith(("SPUB ", "SPUBH ")):
         return ["op:" + case.split(" ")[0]]
     parts = go.split(" ## ")
     if len(parts) != 3:
@@ -84,11 +84,12 @@ RULE = ("random scenarios (1-9 subscribers with overlapping topic sets, 0-14 pub
         "(manual and automatic IDs, resuming subscribers) / faulty (error or panic at call k)), run against the real Joe with "
         "random Gosched/sleep perturbation at every hook; non-trivial = at least one publish accepted and one subscriber "
         "registered; distinct by scenario seed; C03 also: publications through Server.Publish (SPUB: 1-4 subscribers, 1-5 "
-        "publications, topic lists that mix names, the default topic \"\", a name with a comma, a blank, and no topics at all)")
+        "publications, topic lists that mix names, the default topic \"\", a name with a comma, a blank, and no topics at all; "
+        "SPUBH: the same with the subscribers as Server.ServeHTTP sessions whose topics come from OnSession, some on the default topic)")
 
 
 def nontrivial(case, go):
-    if case.startswith("SPUB "):
+    if case.startswith(("SPUB ", "SPUBH ")):
         return any(c.isdigit() for c in go)
     if case[0] in "VF":
         return "R=S" in go
@@ -105,6 +106,8 @@ def register(PROPS):
             # goroutine (no pending call returns any more)
             "on_crash": ("property" if pid == "C06" else
                          (lambda text: "property" if "(*Joe).Shutdown" in text or "(*Joe).start" in text else "correspondence") if pid == "C07" else
+                         # C03 / C17: a panic that kills Joe's goroutine ends every delivery ("delivery continues", "every message ... is handed")
+                         (lambda text: "property" if "(*Joe).start" in text else "correspondence") if pid in ("C03", "C17") else
                          "correspondence"),
             "nontrivial": nontrivial,
             "rule": RULE,
